@@ -860,8 +860,9 @@ pub fn roaming(rng: &mut Rng, max_dist: i64) -> String {
 /// Scan family: engineered arenas so `[>]`, `[<]`, `[>>]` have statically known landing points.
 pub fn scan(rng: &mut Rng) -> String {
     let mut s = String::new();
-    let n = rng.range(2, 12);
-    let stride = *rng.pick(&[1i64, 1, 2, 3]);
+    // mostly short arenas; sometimes long enough to cross several tape growths
+    let n = if rng.chance(1, 6) { rng.range(20, 160) } else { rng.range(2, 12) };
+    let stride = *rng.pick(&[1i64, 1, 1, 2, 2, 3, 4, 5, 8]);
     // arena: cells at stride positions set non-zero, then a zero
     for i in 0..n {
         let v = rng.range(1, 5);
@@ -870,7 +871,11 @@ pub fn scan(rng: &mut Rng) -> String {
             rep(&mut s, '>', stride as usize);
         }
     }
-    // now at last arena cell; scan left with the stride to the zero before the arena
+    // now at last arena cell; step back a few arena cells (the tape size after the growth that the
+    // left scan causes depends on where it starts), then scan left with the stride to the zero
+    // before the arena
+    let back = rng.range(0, 3.min(n - 1));
+    rep(&mut s, '<', (back * stride) as usize);
     s.push('[');
     rep(&mut s, '<', stride as usize);
     s.push(']');
@@ -882,8 +887,23 @@ pub fn scan(rng: &mut Rng) -> String {
     }
     rep(&mut s, '>', stride as usize);
     s.push(']');
-    // after the arena: mark and print
-    s.push_str("+++.");
+    // bounce: further left/right scans over the same arena from other starting cells
+    for _ in 0..rng.range(0, 2) {
+        let back = rng.range(0, 3.min(n - 1));
+        rep(&mut s, '<', ((1 + back) * stride) as usize);
+        s.push('[');
+        rep(&mut s, '<', stride as usize);
+        s.push(']');
+        rep(&mut s, '>', stride as usize);
+        s.push('[');
+        rep(&mut s, '>', stride as usize);
+        s.push(']');
+    }
+    // after the arena: mark and print - or leave the cell behind the arena untouched, so that the
+    // arena's last cell is the right edge of the access window and the scan itself runs off the tape
+    if rng.chance(1, 2) {
+        s.push_str("+++.");
+    }
     // walk back printing
     s.push('<');
     if stride == 1 {
@@ -912,7 +932,24 @@ pub fn diverge(rng: &mut Rng) -> String {
         4 => structured(rng, true, 60),
         _ => ">+<".to_string(),
     };
-    let core = match rng.below(12) {
+    let core = match rng.below(15) {
+        12..=14 => {
+            // counted loop whose trip count does not exist: step d with more trailing zero bits
+            // than the start value s (d*n = s has no solution modulo any power of two >= 2^tz(d)+1)
+            let k = rng.range(1, 4) as u32;
+            let d = (1i64 << k) * *rng.pick(&[1i64, 1, 1, 3, 5]);
+            let tz_s = rng.range(0, k as i64 - 1) as u32;
+            let s = (1i64 << tz_s) * *rng.pick(&[1i64, 1, 3, 5, 7, 9]);
+            let body = *rng.pick(&["", "", ">+<", ".", ">+.<", ">++<", ">[-]+<"]);
+            let (up, down) = if rng.chance(1, 4) { ('-', '+') } else { ('+', '-') };
+            let mut c = String::new();
+            rep(&mut c, up, s as usize);
+            c.push('[');
+            c.push_str(body);
+            rep(&mut c, down, d as usize);
+            c.push(']');
+            c
+        }
         0 => "+[]".to_string(),
         1 => "+[>+<]".to_string(),
         2 => "+[--]".to_string(),
